@@ -347,6 +347,11 @@ def judge (op obs : String) : String :=
   | some h =>
     match (obs.splitOn "|").mapM parseRec with
     | none => "fail not-an-observation:" ++ (obs.take 60).toString
-    | some recs => judgeLoop h h.names recs (List.replicate 6 none) [] 0
+    | some recs =>
+      let verdict := judgeLoop h h.names recs (List.replicate 6 none) [] 0
+      -- the Spec predicate of theorem C10_log_balanced, evaluated literally on the implementation's complete allocator log of a history that ran to
+      -- its end (all images destroyed): every allocate matched by exactly one deallocate with the same id, size and allocator, nothing left allocated
+      let ended := recs.length = h.names.length + 1 ∧ recs.all (fun r => !r.outcome.startsWith "assert:")
+      if verdict = "ok" ∧ ended ∧ !logBalanced ((recs.flatMap (·.events)).reverse) then "fail log-balanced @end" else verdict
 
 def main (args : List String) : IO UInt32 := Driver.main' model judge args
